@@ -667,7 +667,7 @@ class Gen:
             app = rng.choice(self.r.full_cfg["apps"])
             hosts = [""] + [p["host"] for p in self.r.full_cfg["peers"]]
             return {"a": "send", "k": self.nsend, "app": app["name"], "realm": rng.choices(["r1", "r2", "r3", "r9"], weights=[8, 2, 1, 1])[0],
-                    "timeout": rng.choice([1, 2, 3, 30]), "pick": rng.choice(["first", "last"]),
+                    "timeout": rng.choice([1, 2, 3, 30]), "pick": rng.choice(["first", "last", "default"]),
                     "dhost": hosts[self.nsend % len(hosts)]}       # (derived from the count: the random stream stays as it was)
         if a == "resubmit":
             name, req = rng.choice(self.r.answered)
